@@ -450,6 +450,9 @@ def check(ctx):
     analyse_wrapper(ctx, m.func(f'{PYX}.revcomp'), 'c_revcomp', 'buf')
     check_types(ctx, pyx, pxd)
     check_bindings(ctx)
+    from . import c01
+    rep.rule('K10', 'seq_to_bytes (through which the public converters pass their argument) is the identity on the byte content: nothing stripped, folded or re-encoded (C01-K10)')
+    c01.check_seq_to_bytes(ctx)
     rep.floor('T1', 'obligations', len(rep.obs), 60)
 
 
@@ -488,6 +491,7 @@ VARIANTS = [
     V('revcomp writes out[i] (no reversal)', 'B', _K, 'out[n - i - 1] = nuc2', 'out[i] = nuc2', 'T5'),
     V('python wrappers crossed', 'B', 'src/gambit/kmers.py', 'return ckmers.kmer_to_index_rc(seq_to_bytes(kmer))',
       'return ckmers.kmer_to_index(seq_to_bytes(kmer))', 'T9'),
+    V('str k-mers stripped before encoding (seeded C07a)', 'B', 'src/gambit/seq.py', "return seq.encode('ascii')", "return seq.strip().encode('ascii')", 'K10'),
     V('alphabet order changed', 'B', 'src/gambit/seq.py', "NUCLEOTIDES = b'ACGT'", "NUCLEOTIDES = b'ACTG'", 'T1'),
     # behaviour-preserving rewrites
     V('E: index & 3 for index % 4', 'E', _K, 'nuc_index = index % 4', 'nuc_index = index & 3'),
